@@ -752,6 +752,9 @@ func c17RandomRun(rec *vu.Recorder, st *c17Stats, rng *rand.Rand, steps int) {
 			case c17IsPendingPhase(r):
 				add(5, c17Step{Op: "rsched", Node: otherNode()})
 				add(1, c17Step{Op: "rsched", Node: node()})
+				if p := w.getPod(); p != nil {
+					add(1, c17Step{Op: "rsched", Node: p.Spec.NodeName}) // the same-node abort must be exercised as well
+				}
 				add(1, c17Step{Op: "runsched", Hard: true})
 				add(1, c17Step{Op: "rexpire"})
 				if !c17HasUnsched(r) {
